@@ -37,9 +37,9 @@ def tree(p, d):
     try:
         return ['tree', repr(p.parse(d))]
     except p.PartialParseError as e:
-        return ['partial', e.last_position.index]
+        return ['partial', [e.last_position.index, e.last_position.line, e.last_position.column]]
     except p.ParseError as e:
-        return ['error', e.position.index]
+        return ['error', [e.position.index, e.position.line, e.position.column]]
     except BaseException as e:
         return ['exc', type(e).__name__, str(e)[:100]]
 out['selfparse'] = tree(g1, desc)[0] == 'tree'
@@ -139,10 +139,12 @@ def corrupt(d, rng):
     return ''.join(toks)
 
 
-def run_stage(copy, script, out, extra):
+def run_stage(copy, script, out, extra, hashseed=None):
     code = 'COPY = %r\nOUT = %r\n' % (copy, out) + extra + script
     env = {k: v for k, v in os.environ.items() if k not in ('SOURCER_VERIF', 'PYTHONPATH')}
     env['PYTHONDONTWRITEBYTECODE'] = '1'
+    if hashseed is not None:
+        env['PYTHONHASHSEED'] = str(hashseed)
     p = subprocess.run([sys.executable, '-c', code], capture_output=True, text=True, timeout=1200, env=env, cwd=copy)
     if p.returncode != 0 or not os.path.exists(out):
         raise MachineryFailure('bootstrap stage failed: %s' % (p.stderr or '')[-800:])
@@ -195,6 +197,9 @@ def run(chk):
         for ws in ('\x0c', '\x0b', '\xa0', '\u2003', '\x1c', ' \x0c', '\t\x0b ', '\x0c\n', '\n\x0c'):
             descs.append(d0 + ws)
             descs.append(ws + d0)
+    for ws in ('\x0c', '\x0b', '\r', '\x1c', '\x85', '\u2028'):
+        descs.append('Foo = "a"\n' + ws + '\nBar = = "b"\n')
+        descs.append('Foo = "a"' + ws + '\nBar = "b" )\n')
     base = list(descs)
     for d in base:
         for _ in range(10 if chk.tier == 'quick' else 40):
@@ -253,6 +258,17 @@ def run(chk):
                 events.append({'ev': 'generate', 'from': 1, 'sha': sha2})
                 events.append({'ev': 'selfparse', 'gen': 2, 'ok': bool(s2.get('selfparse'))})
                 chk.count(['gen2 == gen1'], True)
+                # a regeneration is a fresh interpreter: the text does not depend on its string-hash seed either
+                for hs in (1, 2, 3, 4, 5):
+                    sx = run_stage(copy, STAGE2, os.path.join(copy, 'stage2_%d.json' % hs), '', hashseed=hs)
+                    srcx = sx.get('gen2_source')
+                    if srcx is not None:
+                        events.append({'ev': 'regenerate', 'from': 1,
+                                       'sha': int(hashlib.sha256(srcx.encode()).hexdigest()[:7], 16) + 1})
+                    if srcx != src2:
+                        chk.violation('regenerating in an interpreter with PYTHONHASHSEED=%d gives another source text than '
+                                      'with PYTHONHASHSEED=%s' % (hs, os.environ.get('PYTHONHASHSEED')), {'stage': 2, 'hashseed': hs})
+                        break
                 if src2 != src1:
                     a, b = src1.split('\n'), src2.split('\n')
                     k = next((i for i, (x, y) in enumerate(zip(a, b)) if x != y), min(len(a), len(b)))
